@@ -669,6 +669,80 @@ def stage_identifier_roundtrip(ctx: Ctx):
                               {**rec, 'result_src': root.src, 'diffs': d[:5]})
 
 
+OWN_PROGS = ['class K:\n    @property\n    def p(self): return 1\n    @a.b(c)\n    # about I\n    class I: pass\nif x:\n    @d\n    async def g(): pass\n',
+             'try:\n    a\nexcept *X:\n    b\nexcept * Y as e:\n    c\nfinally:\n    d\n', 'try:\n    a\nexcept \\\n *X:\n    b\nfinally:\n    d\n', 'try:\n    a\nexcept* X:\n    b\nfinally:\n    d\n',
+             'try:\n    a\nexcept  X:\n    b\nexcept(Y, Z)as e:\n    c\nelse:\n    d\n', 'match v:\n    case [a, *b] if c: pass\n    case {1: x, **r} | None: y = 1\n', 'for i in j:\n    with a as b, c: pass\nelse:\n    z\n',
+             'x = [i for i in j if k]\ny = {a: b for a, b in c}\nz = lambda p, *q, r=1: (p, q)\n', 'def f(a, /, b: int = 1, *c, d, **e) -> r:\n    """doc"""\n    return a\n']
+
+
+def stage_own_src_and_self(ctx: Ctx):
+    """deterministic: every node of a set of programs (decorated definitions inside blocks, `except *X` spellings of star handlers, clauses ...): own_src() parses back to the node;
+    replacing the node by its own copy / pure AST / source text, and cutting all elements of every block-level list and putting them back, gives the original tree"""
+    import fst
+    from fst.astutil import copy_ast
+    for src in OWN_PROGS:
+        ref = ast.parse(src)
+        probe = fst.FST(src, 'exec')
+        paths = [probe.child_path(f, True) for f in probe.walk(True) if f.parent is not None and isinstance(f.a, (ast.stmt, ast.expr, ast.pattern, ast.ExceptHandler, ast.match_case, ast.withitem, ast.arguments,
+                                                                                                                  ast.comprehension, ast.alias, ast.keyword, ast.arg))]
+        for path in paths:
+            f = probe.child_from_path(path)
+            if isinstance(f.a, (ast.stmt, ast.ExceptHandler, ast.match_case)) or (isinstance(f.a, (ast.expr, ast.pattern)) and not isinstance(f.a, (ast.Starred, ast.Slice))):
+                try:
+                    osrc = f.own_src()
+                    back = fst.FST(osrc, type(f.a))
+                    d = cmp_ast(squash_multiline_strings(back.a), squash_multiline_strings(f.a), positions=False, ctx=False)
+                except Exception as e:
+                    d = [f'own_src / parse raised {e!r}'[:200]] if isinstance(f.a, (ast.stmt, ast.ExceptHandler, ast.match_case)) else None
+                    osrc = None
+                ctx.tick(('own-src', src, path), 'sweep:own_src')
+                if d:
+                    ctx.violation(f'own_src-struct|{type(f.a).__name__}', 'own_src() parses to a different node', {'src': src, 'node': path, 'own_src': osrc, 'diffs': d[:5]})
+            for how in ('self_copy', 'self_ast', 'self_src'):
+                root = fst.FST(src, 'exec')
+                g = root.child_from_path(path)
+                rec = {'src': src, 'node': path, 'kind': how}
+                try:
+                    if how == 'self_copy':
+                        g.replace(g.copy())
+                    elif how == 'self_ast':
+                        g.replace(copy_ast(g.a))
+                    else:
+                        g.replace(g.own_src())
+                except Exception as e:
+                    ctx.tick(None, 'sweep:self-replace:refused')
+                    if root.src != src:
+                        ctx.violation('self-replace-refusal-dirty', 'replace by self raised and changed the source', {**rec, 'error': repr(e)[:200], 'after': root.src})
+                    elif isinstance(g.a, (ast.ExceptHandler, ast.stmt)) and how != 'self_ast':
+                        ctx.violation(f'self-replace-refused|{type(g.a).__name__}|{how}', 'replacing a statement-level node by its own copy / source was refused', {**rec, 'error': repr(e)[:200]})
+                    continue
+                ctx.tick(('self', src, path, how), 'sweep:' + how)
+                d = cmp_ast(squash_multiline_strings(root.a), squash_multiline_strings(ref), positions=False) or reparse_diffs(root)
+                if d and how == 'self_ast' and isinstance(g.a, ast.ExceptHandler):
+                    continue        # a pure AST handler does not say whether it was `except*`
+                if d:
+                    ctx.violation(f'roundtrip-struct|{how}|{type(g.a).__name__}', 'the tree after replacing a node by itself is not structurally equal to the original', {**rec, 'after': root.src, 'diffs': d[:5]})
+        # cut everything of every statement-level list and put it back
+        for f in probe.walk(True):
+            for fl in ('body', 'orelse', 'finalbody', 'handlers', 'cases'):
+                v = getattr(f.a, fl, None)
+                if not (isinstance(v, list) and v) or (fl == 'body' and not isinstance(f.a, ast.Module) and False):
+                    continue
+                root = fst.FST(src, 'exec')
+                g = root.child_from_path(probe.child_path(f, True)) if f.parent is not None else root
+                rec = {'src': src, 'holder': repr(g), 'field': fl}
+                try:
+                    piece = g.get_slice(0, 'end', fl, cut=True)
+                    g.put_slice(piece, 0, 0, fl)
+                except Exception as e:
+                    ctx.tick(None, 'sweep:cut-all:refused')
+                    continue
+                ctx.tick(('cut-all', src, repr(f), fl), 'sweep:cut-all-put-back')
+                d = cmp_ast(squash_multiline_strings(root.a), squash_multiline_strings(ref), positions=False) or reparse_diffs(root)
+                if d:
+                    ctx.violation(f'roundtrip-struct|cut-all|{type(g.a).__name__}.{fl}', 'cutting all elements of a block and putting them back does not give the original tree', {**rec, 'after': root.src, 'diffs': d[:5]})
+
+
 def run(ctx: Ctx):
     ctx.rule = ('(1) strings dense in quotes/backslashes/triple quotes/NUL/non-printables: real repr_str_multiline vs ast.literal_eval and vs the Coq model (output and reader); '
                 '(2) put_docstr/get_docstr with such texts at 7 hosts (indent 0..8, tabs, one-line bodies), rewrite and delete, + indentation model correspondence; '
@@ -689,6 +763,7 @@ def run(ctx: Ctx):
     run_guarded(ctx, stage_clause_roundtrip)
     run_guarded(ctx, stage_paren_roundtrip)
     run_guarded(ctx, stage_identifier_roundtrip)
+    run_guarded(ctx, stage_own_src_and_self)
 
 
 def replay(path):
